@@ -499,9 +499,14 @@ def pass_effects(facts):
                 eff.add('MUT')
             # a value computed from the running offset is stored into an emitted item (align padding): it is only right if no
             # later pass changes the size of anything before it
-            if pa.pos_var is not None and any(IS.contains(val, ('lv', pa.pos_var)) for val, n in r['app_values']):
-                eff.add('BAKE')
-                eff.add('POSBAKE')
+            if pa.pos_var is not None:
+                for val, n in r['app_values']:
+                    dep = offset_dependence(pa, r['path'], val)
+                    if dep == 'data':
+                        eff.add('BAKE')
+                        eff.add('POSBAKE')
+                    elif dep == 'opaque':
+                        eff.add('POS?')       # the offset goes into a call that is not followed (a local search helper): what comes back is not known
         for s in sites:
             if in_pass(s.fn):
                 uses_labels = IS.contains(s.env, ('name', pa.labels_name)) or s.env[0] == 'name'
@@ -535,6 +540,39 @@ def label_writing_passes(facts):
     return before - after
 
 
+def offset_dependence(pa, path, val):
+    """How an emitted item depends on the running offset: 'data' - the offset (or arithmetic on it, with the methods of the item
+    followed) is stored in the item; 'opaque' - the offset only goes into calls that are not followed (a local closure that looks a
+    rule up at this offset and returns its name); None - not at all."""
+    pos = ('lv', pa.pos_var)
+    if not IS.contains(val, pos):
+        return None
+    try:
+        val = pa.sizes.resolve(val, path)
+    except AnalysisError:
+        pass
+    found = {'data': False, 'opaque': False}
+    methods = set()
+    for ci in pa.facts.classes.values():
+        methods.update(ci.methods)
+
+    def walk(t, hidden):
+        if t == pos:
+            found['opaque' if hidden else 'data'] = True
+            return
+        if not isinstance(t, tuple):
+            return
+        k = t[0] if t and isinstance(t[0], str) else None
+        inside = hidden
+        if k == 'callv' or (k == 'call' and isinstance(t[1], str) and t[1] not in LR.PURE_BUILTINS) or (k == 'mcall' and len(t) > 2 and t[2] in methods):
+            inside = True
+        for x in t:
+            if isinstance(x, tuple):
+                walk(x, inside)
+    walk(val, False)
+    return 'data' if found['data'] else ('opaque' if found['opaque'] else None)
+
+
 def check_position_frozen(report, facts, rule):
     """A pass that stores a function of the running byte offset into the items it emits (align padding) must not be followed by
     a pass that still changes item sizes: the padding would no longer bring the offset to the boundary."""
@@ -543,6 +581,9 @@ def check_position_frozen(report, facts, rule):
     for compress in (False, True):
         order = [(nm, node) for nm, g, node, a, t in pipeline(facts) if g == 'always' or (g == 'compress' and compress)]
         for b, (nm, node) in enumerate(order):
+            if 'POS?' in eff.get(nm, ()) and 'POSBAKE' not in eff.get(nm, ()) and any('MUT' in eff.get(order[m][0], ()) for m in range(b + 1, len(order))):
+                report.undecided('{}: the running offset goes into a call that is not followed and whose result is stored in the emitted item; whether the item '
+                                 'depends on the offset is not established'.format(nm))
             if 'POSBAKE' not in eff.get(nm, ()):
                 continue
             n += 1
